@@ -25,7 +25,9 @@ func init() { Registry["C04"] = c04 }
 
 var soloCache = map[string]hx.Outcome{}
 
-func opKey(o Op) string { return o.Kind + "\x00" + o.Def + "\x00" + o.Val + "\x00" + o.Root }
+func opKey(o Op) string {
+	return o.Kind + "\x00" + o.Def + "\x00" + o.Val + "\x00" + o.Root + "\x00" + o.Reg + "\x00" + o.Opts
+}
 
 // soloOutcome is the reference: the op alone, on fresh pools, with recycling neutralised (every Get
 // returns a new object).
@@ -442,6 +444,41 @@ func c04worker(c *hx.Ctx) int {
 				for _, it := range []string{`{}`, `{"b":1}`, `{"a":1}`} {
 					exploreHistory([]Op{op1, {Kind: "against", Def: r, Val: it}}, 1, 1, rep, sets, "pair")
 				}
+			}
+		}
+	}
+	// ---- layer 1d: the caller-supplied things a recycled validator keeps a pointer to — the format
+	// registry and the option set — differ between the dirtying and the observed call
+	{
+		fmts := []string{`{"type":"string","format":"date"}`, `{"type":"string","format":"x-even"}`, `{"properties":{"a":{"type":"string","format":"x-even"}}}`, `{"items":{"type":"string","format":"date"}}`}
+		shapes := []string{`{"type":"array"}`, `{"type":"object","properties":{"a":{"type":"array"}}}`, `{"items":{}}`, `{"properties":{"default":{"items":{}}}}`}
+		vals := []string{`"abc"`, `"2020-01-01"`, `"ab"`, `{"a":"abc"}`, `["x","2020-01-01"]`, `{"type":"array"}`, `{"items":1}`, `{"default":{"items":1}}`}
+		var variants []Op
+		for _, f := range append(fmts, shapes...) {
+			for _, v := range vals {
+				for _, reg := range []string{"", "custom"} {
+					for _, opt := range []string{"", "swagger"} {
+						variants = append(variants, Op{Kind: "against", Def: f, Val: v, Reg: reg, Opts: opt})
+					}
+				}
+			}
+		}
+		for _, o1 := range variants {
+			if !mine() {
+				continue
+			}
+			if c.Expired() {
+				rep.Exhaustive = false
+				break
+			}
+			for _, o2 := range variants {
+				if o1.Def != o2.Def && c.Quick() {
+					continue // quick: same schema, every combination of value, registry and options
+				}
+				if o1.Reg == o2.Reg && o1.Opts == o2.Opts {
+					continue
+				}
+				exploreHistory([]Op{o1, o2}, 1, 1, rep, sets, "pair")
 			}
 		}
 	}
